@@ -67,7 +67,7 @@ fn unify_names(l: &mut Level, help: &Option<(Vec<char>, Vec<String>)>) {
             | Node::Complete { n, .. }
             | Node::CompleteShell(n, _)
             | Node::Boxed(n) => go(n, help),
-            Node::Named(_) | Node::Pos(_) | Node::Pure(_) | Node::Fail(_) => {}
+            Node::Named(_) | Node::Pos(_) | Node::Pure(_) | Node::Fail(_) | Node::Any(_) => {}
         }
     }
     go(&mut l.body, help);
